@@ -9,7 +9,9 @@ SD1 == ClampedDirs({1, 2}, <<R(1,4), R(3,4)>>, 1)
 SurfSet == {s \in Surfaces(SD1, SD1, {3}, BOOLEAN, Seed) : s.size[1] # s.size[2]}
 VD == ClampedDirs({1, 2}, <<Half>>, 1)
 VolSet == {s \in Volumes(VD, VD, ClampedDirs({1}, <<Half>>, 1), BOOLEAN, Seed) : DiffSizes(s) /\ s.deg[1] # s.deg[2]}
-Init == sh \in CurveSet \cup SurfSet \cup VolSet /\ out = [op |-> "init"]
+EqualW(s) == [s EXCEPT !.P = Combine(Ctrlpts(s), [i \in 1..Len(s.P) |-> R(5, 2)])]
+EqualSet == {EqualW(s) : s \in {x \in Curves(ClampedDirs({2, 3}, KQ, 1), {2, 3}, {TRUE}, Seed) \cup Surfaces(ClampedDirs({2}, <<Half>>, 1), ClampedDirs({1}, <<Half>>, 1), {3}, {TRUE}, Seed) : x.rat}}
+Init == sh \in CurveSet \cup SurfSet \cup VolSet \cup EqualSet /\ out = [op |-> "init"]
 
 \* convex-combination certificate: coefficients of the active (unweighted) control points
 Lambda(s, prm) ==
